@@ -2269,7 +2269,13 @@ func (r *Runtime) toReflectValue(v Value, dst reflect.Value, ctx *objectExportCt
 			}
 		}
 		if dst.IsNil() {
-			dst.Set(reflect.New(typ.Elem()))
+			// allocate into the destination only when the conversion succeeds
+			n := reflect.New(typ.Elem())
+			if err := r.toReflectValue(v, n.Elem(), ctx); err != nil {
+				return err
+			}
+			dst.Set(n)
+			return nil
 		}
 		return r.toReflectValue(v, dst.Elem(), ctx)
 	}
